@@ -463,6 +463,21 @@ def random_op(rng, g, guard=True):
     return ["glyph", rng.randint(0, 7), [rng.choice([0, 1, 31, 32, 255, -1, 21, 10, rng.randint(-40, 300)]) for _ in range(8)]]
 
 
+def bl_op(rng, g):
+    """display / backlight / brightness histories (with a glyph or a text call now and then)"""
+    cols, rows, i2c, bl = g
+    k = rng.random()
+    if k < 0.25:
+        return ["display", rng.random() < 0.5]
+    if k < 0.55:
+        return ["backlight", rng.random() < 0.5]
+    if k < 0.85 and (not i2c) and bl is not None:
+        return ["brightness", rng.choice([0, 1, 77, 128, 254, 255, rng.randint(0, 255)])]
+    if k < 0.93:
+        return ["glyph", rng.randint(0, 7), [rng.choice([0, 1, 31, 32, 63, 255, -1, 21, 10, rng.randint(-40, 300)]) for _ in range(8)]]
+    return ["line", rng.randrange(rows), gen_text(rng, rng.randint(0, cols)), rng.choice(ALIGNS), rng.random() < 0.5]
+
+
 def wild_op(rng, g):
     """anything, including calls outside the property's quantifier (correspondence only)"""
     cols, rows, i2c, bl = g
@@ -787,6 +802,12 @@ def run(ctx: C.Ctx):
         vals = sorted(set(list(range(-2, min(m, 24) + 3)) + [m - 1, m, m + 1, m + 2, m // 2]))
         row = rng.randrange(r)
         add("scan", g, [["progress", row, v, m, w, style, label] for v in vals], "setup", 0.3)
+    # ---- backlight histories on the three wirings (parallel + pin, I2C backpack, parallel without pin)
+    for i in range(24 if thorough else 6):
+        wiring = i % 3
+        c, r = rng.choice([(16, 2), (20, 4), (8, 1), (40, 2)])
+        g = (c, r, wiring == 1, 30 if wiring == 0 else None)
+        add("bl", g, [bl_op(rng, g) for _ in range(60 if thorough else 36)], "setup", 0.4)
     # ---- wild stream (correspondence only): out-of-range arguments, geometries beyond one HD44780
     for _ in range(400 if thorough else 40):
         c, r = rng.choice(all_geoms + [(21, 3), (40, 4), (33, 3), (24, 4)])
@@ -840,7 +861,7 @@ def run(ctx: C.Ctx):
 
     # ---- batch the cases into sketches (a backlight pin number identifies one LCD inside a sketch)
     builders, where = [], {}
-    per = {"sweep": 4, "seq": 8, "scan": 6, "wild": 8}
+    per = {"sweep": 4, "seq": 8, "scan": 6, "wild": 8, "bl": 3}
     open_b = {}
     for ci, c in enumerate(cases):
         ops = c.get("dev_ops", c["ops"])
@@ -865,6 +886,7 @@ def run(ctx: C.Ctx):
 
     n_oracle = n_corr_h = n_corr_d = 0
     nontrivial = set()
+    untranspiled = []
     for ci, c in enumerate(cases):
         bi, li = where[ci]
         parsed, prob = fres[bi]
@@ -881,19 +903,38 @@ def run(ctx: C.Ctx):
         if prob:
             ctx.disagree("firmware could not be produced/run for generated LCD calls: " + prob,
                          {"id": c["id"], "geom": g, "ops": ops}, None, builders[bi].source()[0][-1500:])
+            if prob.startswith("transpile failed") and c["kind"] != "wild" and all(c["guard"]):
+                untranspiled.append(c)
             continue
         fwp = parsed[li]
         dev_ops = c.get("dev_ops", ops)
         if ctx.exe:
             device_model_compare(ctx, c["id"], g, dev_ops, dmod[ci], fwp)
             n_corr_d += len(dev_ops)
-        if c["kind"] in ("sweep", "seq", "scan") and all(c["guard"]) or c["kind"] == "scan":
+        if c["kind"] in ("sweep", "seq", "scan", "bl") and all(c["guard"]) or c["kind"] == "scan":
             if c["kind"] == "scan":
                 progress_scan(ctx, c["id"], g, ops, hres[ci], fwp)
             oracle(ctx, c["id"], g, ops, hres[ci], fwp)
             n_oracle += len(ops)
             for op in ops:
                 nontrivial.add(json.dumps([g, op]))
+
+    # ---- a batch of guarded calls that did not transpile: find the call (each one alone in a script);
+    #      an in-range call the host accepts and the transpiler rejects leaves nothing on the display
+    if untranspiled:
+        probe = [(c["geom"], op) for c in untranspiled[:40] for op in c["ops"]][:400]
+        bs = []
+        for g, op in probe:
+            b = ScriptBuilder("setup")
+            b.add_lcd("probe", g, [op], [False])
+            bs.append(b)
+        seen = set()
+        for (g, op), t in zip(probe, fw.transpile_many([b.source()[0] for b in bs])):
+            key = "transpile-reject-" + op[0]
+            if not t.get("ok") and key not in seen:
+                seen.add(key)
+                ctx.fail("the transpiler rejects an in-range LCD call the host accepts", {"geom": g, "ops": [op]},
+                         "firmware for the call", f"{t.get('exc')}: {t.get('msg')}", key=key)
 
     # ---- calls the transpiler must reject (bad align/style, glyph with != 8 rows)
     if reject_cases:
@@ -934,7 +975,7 @@ def run(ctx: C.Ctx):
     ctx.coverage.update({
         "evaluations": n_ops,
         "distinct_nontrivial": len(nontrivial),
-        "rule": "sweep: for every geometry that fits one HD44780 (cols 1..40 x rows 1..4 with rows<=2 or cols<=20; all of them in the thorough tier, a boundary sample in quick) and both wirings, single write/line/message/clear calls at columns 0, cols//2, cols-1 with text length classes empty/shorter/equal/longer, all alignments and clear flags, executed back to back on one display; seq: seeded random sequences of <= 8 guarded ops, one op per loop() pass so the mock dumps the matrix after every op; scan: progress with value = -2..max+2 at fixed max/width; wild: out-of-range arguments and oversized geometries (correspondence only). ~30% of the calls pass row/col/value/max/width/level/slot/flags as run-time values (analog_read). distinct non-trivial = distinct (geometry, wiring, call) pairs evaluated by the firmware-vs-host oracle.",
+        "rule": "sweep: for every geometry that fits one HD44780 (cols 1..40 x rows 1..4 with rows<=2 or cols<=20; all of them in the thorough tier, a boundary sample in quick) and both wirings, single write/line/message/clear calls at columns 0, cols//2, cols-1 with text length classes empty/shorter/equal/longer, all alignments and clear flags, executed back to back on one display; seq: seeded random sequences of <= 8 guarded ops, one op per loop() pass so the mock dumps the matrix after every op; scan: progress with value = -2..max+2 at fixed max/width; bl: histories of 36 (quick) / 60 (thorough) display/backlight/brightness calls (plus glyph and line calls) on the three wirings (parallel with backlight pin, I2C backpack, parallel without pin); wild: out-of-range arguments and oversized geometries (correspondence only). ~30% of the calls pass row/col/value/max/width/level/slot/flags as run-time values (analog_read). distinct non-trivial = distinct (geometry, wiring, call) pairs evaluated by the firmware-vs-host oracle.",
         "samples": [{"geom": c["geom"], "ops": c["ops"][:2]} for c in (cases[0], cases[len(cases) // 2], cases[-1])],
         "distribution": dict(dist, sketches=len(builders), cases=len(cases), host_model_calls=n_corr_h, device_model_calls=n_corr_d,
                              oracle_calls=n_oracle, run_time_arg_calls=sum(sum(c["rts"]) for c in cases)),
